@@ -70,6 +70,52 @@ def ret_temp(fn):
     return done
 
 
+def package_signatures():
+    """name -> parameter list, for module-level functions whose name is unique in the package; (class, method) -> parameters."""
+    byname, methods = {}, {}
+    for p in sorted(PKG.glob("*.py")):
+        tree = ast.parse(p.read_text())
+        for cname, fn in functions(tree):
+            a = fn.args
+            if a.vararg or a.posonlyargs:
+                continue
+            ps = [x.arg for x in a.args]
+            if cname is None:
+                byname.setdefault(fn.name, []).append(ps)
+            else:
+                decos = {d.id if isinstance(d, ast.Name) else getattr(d, "attr", "") for d in fn.decorator_list}
+                if "property" in decos:
+                    continue
+                methods[(cname, fn.name)] = ps if "staticmethod" in decos else ps[1:]
+    return {k: v[0] for k, v in byname.items() if len(v) == 1}, methods
+
+
+SIGS = None
+
+
+def to_keywords(fn, cname):
+    global SIGS
+    if SIGS is None:
+        SIGS = package_signatures()
+    byname, methods = SIGS
+    local = {n.id for n in ast.walk(fn) if isinstance(n, ast.Name) and isinstance(n.ctx, ast.Store)} | {a.arg for a in fn.args.args}
+    done = False
+    for c in ast.walk(fn):
+        if not isinstance(c, ast.Call) or not c.args or any(isinstance(a, ast.Starred) for a in c.args) or any(k.arg is None for k in c.keywords):
+            continue
+        ps = None
+        if isinstance(c.func, ast.Name) and c.func.id in byname and c.func.id not in local:
+            ps = byname[c.func.id]
+        elif isinstance(c.func, ast.Attribute) and isinstance(c.func.value, ast.Name) and c.func.value.id == "self" and cname and (cname, c.func.attr) in methods:
+            ps = methods[(cname, c.func.attr)]
+        if ps is None or len(c.args) > len(ps) or {k.arg for k in c.keywords} & set(ps[:len(c.args)]):
+            continue
+        c.keywords = [ast.keyword(arg=p_, value=a) for p_, a in zip(ps, c.args)] + c.keywords
+        c.args = []
+        done = True
+    return done
+
+
 def variants(only, kinds):
     out = []
     for p in sorted(PKG.glob("*.py")):
@@ -83,7 +129,7 @@ def variants(only, kinds):
             for kind in kinds:
                 tree = copy.deepcopy(tree0)
                 fn = [f for _c, f in functions(tree)][idx - 1]
-                ok = rename_locals(fn) if kind == "rename" else ret_temp(fn)
+                ok = rename_locals(fn) if kind == "rename" else ret_temp(fn) if kind == "rettemp" else to_keywords(fn, cname)
                 if not ok:
                     continue
                 out.append((f"{kind}:{p.stem}.{cname + '.' if cname else ''}{fn.name}", f"hvsrpy/{p.name}", ast.unparse(tree)))
